@@ -423,6 +423,18 @@ func loadKnown() knownFile {
 	return kf
 }
 
+// readKnownCase loads the concrete input of a known finding.
+func readKnownCase(k knownFinding) (knownCase, map[string]string, bool) {
+	var kc knownCase
+	kdir := filepath.Join(evid.Root(), k.Dir)
+	b, err := os.ReadFile(filepath.Join(kdir, "case.json"))
+	if err != nil || json.Unmarshal(b, &kc) != nil {
+		fmt.Printf("harness: known finding %s has no readable case.json\n", k.ID)
+		return kc, nil, false
+	}
+	return kc, readTreeDir(filepath.Join(kdir, "tree")), true
+}
+
 func readTreeDir(dir string) map[string]string {
 	files := map[string]string{}
 	filepath.Walk(dir, func(p string, info os.FileInfo, err error) error {
